@@ -147,9 +147,11 @@ def gen_case(rng, cid, store):
 def interleavings(lens, before):
     """all merges of the threads' sequences; [before] = set of ((t1,k1),(t2,k2)) real-time constraints op1 returned before op2 was called"""
     out = []
+    capped = []
 
     def rec(pos, acc):
         if len(out) >= 400:
+            capped.append(1)
             return
         if all(p == l for p, l in zip(pos, lens)):
             out.append(list(acc))
@@ -166,7 +168,7 @@ def interleavings(lens, before):
                 acc.pop()
                 pos[t] -= 1
     rec([0] * len(lens), [])
-    return out
+    return out, not capped
 
 
 def make_cases(ctx, first):
@@ -220,6 +222,7 @@ def oracle(ctx, case, io):
 def linearize(ctx, cases, iouts, views):
     """search, per case, an interleaving of the threads on which the sequential model answers what the clients were answered"""
     jobs, meta = [], {}
+    incomplete = {}       # case id -> the enumeration of interleavings was cut off (no verdict from a failed search)
     for c in cases:
         io = iouts[c["id"]]
         if io.get("fatal"):
@@ -239,7 +242,8 @@ def linearize(ctx, cases, iouts, views):
                     for k2, r2 in enumerate(rs2):
                         if r1.get("t1") and r2.get("t0") and r1["t1"] < r2["t0"]:
                             before.add(((t1, k1), (t2, k2)))
-        orders = interleavings([len(t) for t in threads], before)
+        orders, complete = interleavings([len(t) for t in threads], before)
+        incomplete[c["id"]] = not complete
         for oi, order in enumerate(orders):
             seq = [threads[t][j] for t, j in order]
             jid = len(jobs) + 1
@@ -261,6 +265,7 @@ def linearize(ctx, cases, iouts, views):
         best = None
         ok = False
         relaxed_ok = None
+        lag_ok = None
         acked_del = {}
         for t, (th, rs) in enumerate(zip(threads, par)):
             for st, r in zip(th, rs):
@@ -278,6 +283,7 @@ def linearize(ctx, cases, iouts, views):
                     bad = ("prefix", q)
                     break
             relaxed = False
+            lag = False
             if bad is None:
                 for pos, (t, jx) in enumerate(order):
                     st = threads[t][jx]
@@ -293,6 +299,23 @@ def linearize(ctx, cases, iouts, views):
                             relaxed = True
                             nm += 1
                             continue
+                        # a referrers listing read while an artifact of that subject is being pushed / deleted by another client:
+                        # the manifest entry and the referrers response are updated in two critical sections (finding C11-F53)
+                        if st["kind"] == "refs" and ca.get("status") == 200 and cb.get("status") == 200 and {x: v for x, v in ca.items() if x != "refs"} == {x: v for x, v in cb.items() if x != "refs"}:
+                            me = par[t][jx]
+                            inflight = set()
+                            for t2, (th2, rs2) in enumerate(zip(threads, par)):
+                                if t2 == t:
+                                    continue
+                                for st2, r2 in zip(th2, rs2):
+                                    if st2["kind"] in ("mput", "mdel") and st2.get("repo") == st.get("repo") and r2.get("t0") and me.get("t0") and r2["t0"] < me["t1"] and me["t0"] < r2["t1"]:
+                                        inflight.add(((r2.get("headers") or {}).get("Docker-Content-Digest") or [st2.get("arg")])[0])
+                                        inflight.add(st2.get("arg"))
+                            diff = set(ca.get("refs") or []) ^ set(cb.get("refs") or [])
+                            if diff and all(json.loads(x).get("dig") in inflight for x in diff):
+                                lag = True
+                                nm += 1
+                                continue
                         bad = ("concurrent", pos)
                         break
                     nm += 1
@@ -303,22 +326,41 @@ def linearize(ctx, cases, iouts, views):
                         bad = ("after", q)
                         break
                     nm += 1
-            if bad is None and not relaxed:
+            if bad is None and not relaxed and not lag:
                 ok = True
                 break
+            if bad is None and lag:
+                lag_ok = order
+                continue
             if bad is None and relaxed:
                 relaxed_ok = order
                 continue
             if best is None or nm > best[0]:
-                best = (nm, order, bad)
+                div = None
+                if bad and bad[0] == "concurrent":
+                    t_, j_ = order[bad[1]]
+                    div = dict(request="%s %s" % (threads[t_][j_]["impl"].get("method", threads[t_][j_]["kind"]), threads[t_][j_]["impl"].get("path", "")),
+                               impl=str(canon_impl(threads[t_][j_], par[t_][j_], SidMap()))[:600], model=str(canon_model(threads[t_][j_], mo[k + bad[1]], SidMap()))[:600])
+                elif bad and bad[0] == "after":
+                    st_ = c["steps"][k + 1 + bad[1]]
+                    div = dict(request="%s %s" % (st_["impl"].get("method", st_["kind"]), st_["impl"].get("path", "")),
+                               impl=str(canon_impl(st_, io["steps"][k + 1 + bad[1]], SidMap()))[:600], model=str(canon_model(st_, mo[k + len(order) + bad[1]], SidMap()))[:600])
+                best = (nm, order, bad, div)
         norders += len(js)
         if ok:
             nlin += 1
+        elif lag_ok is not None:
+            nlin += 1
+            ctx.violation("a referrers listing read while an artifact of that subject was being pushed or deleted shows a state no sequential order produces: the client had already seen "
+                          "the effect of that request on the manifest entry / tag (or sees it later) but not on the referrers list - the two are updated in separate critical sections "
+                          "(everything else in the history is linearizable)", dict(case=replayable(c), order=lag_ok), "C11:referrers-lag-artifact-push")
         elif relaxed_ok is not None:
             nlin += 1
             dd = [k_ for k_, v in acked_del.items() if len(v) >= 2]
             ctx.violation("two overlapping DELETEs of %s were both answered 202: no sequential order acknowledges the second one (everything else in the history is linearizable)" % (dd[0][1][:19] if dd else "?"),
                           dict(case=replayable(c), order=relaxed_ok), "C11:double-delete-acknowledged")
+        elif incomplete.get(c["id"]):
+            pass          # more interleavings than the search enumerates: inconclusive, not a violation
         else:
             nfail += 1
             hist = [[dict(thread=t, req="%s %s" % (st["impl"].get("method", st["kind"]), st["impl"].get("path", st.get("repo", ""))), status=r.get("status"),
@@ -328,15 +370,79 @@ def linearize(ctx, cases, iouts, views):
                           body=base64.b64decode(r.get("b64") or "")[:300].decode("latin-1")) for st, r in zip(c["steps"][k + 1:], io["steps"][k + 1:])]
             ctx.violation("no sequential order of the %d concurrent requests explains what the clients were answered and what is read afterwards (%d interleavings tried on the extracted model; the closest one diverges at %s)"
                           % (sum(len(t) for t in threads), len(js), best[2] if best else "?"),
-                          dict(case=replayable(c), history=hist, reads_afterwards=after, closest_order=best[1] if best else None,
+                          dict(case=replayable(c), history=hist, reads_afterwards=after, closest_order=best[1] if best else None, divergence=best[3] if best else None,
                                note="linearizability of the real server against the sequential model coq/Reg.v"), "C11:not-linearizable")
     return nlin, nfail, norders
 
 
+def lag_cases(ctx, first):
+    """an artifact push / delete that has to wait for the server's referrers mutex (held on behalf of another client's artifact
+    request) between its two updates: reads that arrive meanwhile"""
+    rng = ctx.rng
+    cases = []
+    for i in range(4 if ctx.tier == "quick" else 40):
+        store = ("mem", "dir")[i % 2]
+        delete = i % 4 >= 2
+        repo = rng.choice(["a", "b/c"])
+        cfg = b"{}"
+        base = image_manifest(desc(MT_CFG, cfg), [], annotations={"lag": "base-%d" % i})
+        art = image_manifest(desc(MT_EMPTY, cfg), [], subject={"mediaType": MT_OCI_M, "digest": dg("sha256", base), "size": len(base)},
+                             artifact_type="application/vnd.example.sig", annotations={"lag": str(i)})
+        pre = [upload_post(repo, digest=dg("sha256", cfg), body=cfg), manifest_put(repo, "base", base, ctype=MT_OCI_M)]
+        req = manifest_put(repo, "siglag", art, ctype=MT_OCI_M)
+        if delete:
+            pre.append(req)
+            req = manifest_delete(repo, dg("sha256", art))
+        inner = [dict(kind="async", impl=dict(op="async", par=[[req["impl"]]]), model="(skip)"), special("sleep", secs=0.05),
+                 tag_list(repo), manifest_get(repo, "siglag"), referrers(repo, dg("sha256", base), None)]
+        steps = pre + [dict(kind="reflock", impl=dict(op="reflock", par=[[x["impl"] for x in inner]]), model="(skip)", inner=inner, delete=delete, artifact=dg("sha256", art)),
+                       dict(kind="join", impl=dict(op="join", secs=5.0), model="(skip)"),
+                       tag_list(repo), referrers(repo, dg("sha256", base), None)]
+        for st in steps:
+            st["model"] = "(skip)"
+        cases.append(dict(id=first + i, conf=mkconf(store=store, withsubj=False), steps=steps))
+    return cases
+
+
+def lag_check(ctx, only=None):
+    cases = only or lag_cases(ctx, 950000)
+    iouts = run_api(ctx, api_binary(ctx), cases, name="lag")
+    n = 0
+    for c in cases:
+        io = iouts[c["id"]]
+        for st, r in zip(c["steps"], io["steps"]):
+            if st["kind"] != "reflock":
+                continue
+            rs = (r.get("par") or [[]])[0]
+            if len(rs) < 5:
+                continue
+            tags = (json.loads(base64.b64decode(rs[2].get("b64") or "") or b"{}").get("tags") or []) if rs[2].get("status") == 200 else []
+            byref = rs[3].get("status") == 200
+            listed = [d.get("digest") for d in (json.loads(base64.b64decode(rs[4].get("b64") or "") or b"{}").get("manifests") or [])] if rs[4].get("status") == 200 else []
+            has = st["artifact"] in listed
+            entry = "siglag" in tags or byref
+            if entry != has:
+                n += 1
+                ctx.violation("while an artifact %s waits for the referrers mutex between its two updates, the tag listing / GET by tag %s the artifact but the referrers list of its subject %s it: "
+                              "a state no sequential order of the requests produces (the manifest entry and the referrers response are updated in separate critical sections)"
+                              % ("delete" if st["delete"] else "push", "shows" if entry else "no longer shows", "lists" if has else "does not list"),
+                              dict(case=replayable(c), tags=tags, get_by_tag=rs[3].get("status"), referrers=listed), "C11:referrers-lag-artifact-push")
+    return len(cases), n
+
+
 def run(ctx):
     res = {}
+    if ctx.replay:
+        r = json.load(open(ctx.replay))
+        c = unreplay(r.get("replay", r).get("case", r.get("replay", r)))
+        if any(st["kind"] == "reflock" for st in c["steps"]):
+            c["id"] = 1
+            ctx.coq_build()
+            lag_check(ctx, [c])
+            return
 
     def extra(cases, iouts):
+        res["lag"] = lag_check(ctx)
         bodies = set()
         for c in cases:
             bodies |= set(c["contents"])
@@ -351,3 +457,4 @@ def run(ctx):
         nlin, nfail, norders = res["lin"]
         ctx.coverage.update(dict(histories_linearized=nlin, histories_not_linearizable=nfail, interleavings_run_on_model=norders))
         ctx.coverage["correspondence_mismatches"] = ctx.coverage.get("correspondence_mismatches", 0) + nfail
+        ctx.coverage["referrers_mutex_schedules"], ctx.coverage["referrers_lag_observed"] = res.get("lag", (0, 0))
